@@ -1190,12 +1190,19 @@ func (t *Table) MergeCellsHorizontal(row, startCol, endCol int) error {
 	return nil
 }
 
+// maxGridSpan 单元格跨列数的上限（远大于Word允许的63列）。
+// 打开的文档里gridSpan可以是任意数字，按它分配单元格之前必须有界
+const maxGridSpan = 1024
+
 // gridSpanValue 返回单元格占用的网格列数（没有 gridSpan 时为1）
 func (tc *TableCell) gridSpanValue() int {
 	span := 1
 	if tc.Properties != nil && tc.Properties.GridSpan != nil {
 		if _, err := fmt.Sscanf(tc.Properties.GridSpan.Val, "%d", &span); err != nil || span < 1 {
 			span = 1
+		}
+		if span > maxGridSpan {
+			span = maxGridSpan
 		}
 	}
 	return span
@@ -1333,10 +1340,7 @@ func (t *Table) UnmergeCells(row, col int) error {
 	// 检查是否有水平合并
 	if cell.Properties.GridSpan != nil {
 		// 获取合并的列数
-		spanCount := 1
-		if cell.Properties.GridSpan.Val != "" {
-			fmt.Sscanf(cell.Properties.GridSpan.Val, "%d", &spanCount)
-		}
+		spanCount := cell.gridSpanValue()
 
 		// 插入被合并的单元格
 		for i := 1; i < spanCount; i++ {
